@@ -176,8 +176,30 @@ func Gen(rt *rapid.T, prefix string, f Features) Scenario {
 			g.w("\ti2 = %s(x-1, z+1)", name)
 			g.w("}")
 		}
+		// some helpers return a plain variable that a deferred function changes (and then
+		// suspends) after the return value has been fixed
+		retVar := rapid.IntRange(0, 2).Draw(rt, "retvar") == 0
+		if retVar {
+			g.kind("return-var-defer")
+			g.w("ret := 0")
+			g.w("defer func() {")
+			g.w("\tret = lim(ret + 7)")
+			if g.f.Yield {
+				g.w("\tyield(%d)", g.nsite)
+				g.nsite++
+				g.kind("yield-stmt")
+			}
+			g.w("\tret = lim(ret * 2)")
+			g.w("\ti0 = lim(i0 + ret)")
+			g.w("}()")
+		}
 		g.block(g.budget)
-		g.w("return lim(i0 + i1*3 + i2*5 + i3*7 + int(a0) + int(a1) + len(s0) + len(sl) + p.a)")
+		if retVar {
+			g.w("ret = lim(i0 + i1*3 + i2*5 + i3*7 + int(a0) + int(a1) + len(s0) + len(sl) + p.a)")
+			g.w("return ret")
+		} else {
+			g.w("return lim(i0 + i1*3 + i2*5 + i3*7 + int(a0) + int(a1) + len(s0) + len(sl) + p.a)")
+		}
 		fmt.Fprintf(&out, "func %s(x, z int) int {\n%s}\n\n", name, g.sb.String())
 		g.funcs = append(g.funcs, name)
 	}
